@@ -65,6 +65,10 @@ func init() {
 		"fmt.Sprintln":                         iFmtSprintln,
 		"fmt.Fprintf":                          iFmtFprintf,
 		"errors.Is":                            nil,
+		"(*sync/atomic.Value).Load":            iAtomicValueLoad,
+		"(*sync/atomic.Value).Store":           iAtomicValueStore,
+		"(*sync/atomic.Value).Swap":            iAtomicValueSwap,
+		"(*sync/atomic.Pointer[T]).Load":       nil,
 	}
 	for k, v := range more {
 		if v != nil {
@@ -168,15 +172,11 @@ func iUnsafeString(in *Interp, fn *ssa.Function, a []Value) Value {
 	return nil
 }
 
-func iRLock(in *Interp, fn *ssa.Function, a []Value) Value {
-	in.logEvent("racq", a[0].(PtrV))
-	return nil
-}
+// RWMutex: readers are modelled as exclusive holders too (sound for mutual exclusion with writers;
+// reader/reader concurrency is not explored)
+func iRLock(in *Interp, fn *ssa.Function, a []Value) Value { return iMutexLock(in, fn, a) }
 
-func iRUnlock(in *Interp, fn *ssa.Function, a []Value) Value {
-	in.logEvent("rrel", a[0].(PtrV))
-	return nil
-}
+func iRUnlock(in *Interp, fn *ssa.Function, a []Value) Value { return iMutexUnlock(in, fn, a) }
 
 // sync.Once{done atomic.Uint32 / uint32; m Mutex}: Do runs f at most once; modelled as a critical
 // section on the Once object (sound for race analysis: all Do calls are mutually ordered).
@@ -185,7 +185,14 @@ func iOnceDo(in *Interp, fn *ssa.Function, a []Value) Value {
 	if p.isNil() {
 		in.goPanicf("runtime error: invalid memory address or nil pointer dereference (nil *sync.Once)")
 	}
+	in.yield()
+	okey := in.mutexKey(p) + "#once"
+	if in.sched != nil {
+		in.blockOn(okey)
+	}
+	in.heldMutex[okey] = true
 	in.logEvent("acq", p)
+	defer delete(in.heldMutex, okey)
 	key := fmt.Sprintf("once:%d:%s", p.obj.id, pathKey(p.path))
 	if !in.onceDone[key] {
 		in.onceDone[key] = true
@@ -200,39 +207,49 @@ func iOnceDo(in *Interp, fn *ssa.Function, a []Value) Value {
 }
 
 func iAtomicLoad(in *Interp, fn *ssa.Function, a []Value) Value {
+	in.yield()
 	p := a[0].(PtrV)
 	if p.isNil() {
 		in.goPanicf("runtime error: invalid memory address or nil pointer dereference")
 	}
+	in.logAtomic(false, p)
 	return p.load()
 }
 
 func iAtomicStore(in *Interp, fn *ssa.Function, a []Value) Value {
+	in.yield()
 	p := a[0].(PtrV)
 	if p.isNil() {
 		in.goPanicf("runtime error: invalid memory address or nil pointer dereference")
 	}
 	p.store(a[1])
+	in.logAtomic(true, p)
 	return nil
 }
 
 func iAtomicAdd(in *Interp, fn *ssa.Function, a []Value) Value {
+	in.yield()
 	p := a[0].(PtrV)
 	if p.isNil() {
 		in.goPanicf("runtime error: invalid memory address or nil pointer dereference")
 	}
+	in.logAtomic(false, p)
 	nv := in.tt.Bin(OpAdd, p.load().(*Term), a[1].(*Term))
 	p.store(nv)
+	in.logAtomic(true, p)
 	return nv
 }
 
 func iAtomicCAS(in *Interp, fn *ssa.Function, a []Value) Value {
+	in.yield()
 	p := a[0].(PtrV)
 	if p.isNil() {
 		in.goPanicf("runtime error: invalid memory address or nil pointer dereference")
 	}
+	in.logAtomic(false, p)
 	if in.branch(in.tt.Bin(OpEq, p.load().(*Term), a[1].(*Term))) {
 		p.store(a[2])
+		in.logAtomic(true, p)
 		return in.tt.tT
 	}
 	return in.tt.tF
@@ -277,4 +294,59 @@ var lazyInitPkgs = map[string]bool{
 	"unicode/utf8": true, "unicode": true, "strconv": true, "strings": true, "bytes": true,
 	"math/bits": true, "sort": true, "slices": true, "unicode/utf16": true, "math": true,
 	"internal/stringslite": true, "path": true, "html": true,
+}
+
+// sync/atomic.Value{v any}: the stored interface value is kept in field 0.
+func iAtomicValueLoad(in *Interp, fn *ssa.Function, a []Value) Value {
+	in.yield()
+	p := a[0].(PtrV)
+	if p.isNil() {
+		in.goPanicf("runtime error: invalid memory address or nil pointer dereference")
+	}
+	in.logAtomic(false, p)
+	v, ok := p.sub(0).load().(IfaceV)
+	if !ok {
+		return IfaceV{}
+	}
+	return v
+}
+
+func iAtomicValueStore(in *Interp, fn *ssa.Function, a []Value) Value {
+	in.yield()
+	p := a[0].(PtrV)
+	if p.isNil() {
+		in.goPanicf("runtime error: invalid memory address or nil pointer dereference")
+	}
+	nv := a[1].(IfaceV)
+	if nv.t == nil {
+		panic(goPanic{msg: "panic: sync/atomic: store of nil value into Value", fn: "(*sync/atomic.Value).Store"})
+	}
+	if old, ok := p.sub(0).load().(IfaceV); ok && old.t != nil && !types.Identical(old.t, nv.t) {
+		panic(goPanic{msg: "panic: sync/atomic: store of inconsistently typed value into Value", fn: "(*sync/atomic.Value).Store"})
+	}
+	p.sub(0).store(nv)
+	in.logAtomic(true, p)
+	return nil
+}
+
+func iAtomicValueSwap(in *Interp, fn *ssa.Function, a []Value) Value {
+	old := iAtomicValueLoad(in, fn, a)
+	iAtomicValueStore(in, fn, a)
+	return old
+}
+
+// atomic events for the schedule analysis: a load observes the latest store to that location in the
+// explored execution (reads-from), which any re-ordering considered by the clock encoding must preserve.
+func (in *Interp) logAtomic(store bool, p PtrV) {
+	if !in.traceOn || p.obj == nil {
+		return
+	}
+	key := in.mutexKey(p)
+	if store {
+		in.atomicSeq++
+		in.lastStore[key] = in.atomicSeq
+		in.events = append(in.events, Event{Thread: in.curThread, Kind: "ast", Obj: p.obj.id, Path: pathKey(p.path), Seq: in.atomicSeq})
+		return
+	}
+	in.events = append(in.events, Event{Thread: in.curThread, Kind: "ald", Obj: p.obj.id, Path: pathKey(p.path), Seq: in.lastStore[key]})
 }
